@@ -179,12 +179,19 @@ def run_group(g, tier, seed, use_cache=True):
         if not mc['ok']:
             raise ToolError('model checking of MC_PathLayer_q failed:\n%s' % mc.get('tail', ''))
         mcs['MC_PathLayer_q'] = mc
+    if g == 'alt':
+        # Level B: re-rooting law of the contract (AltrootFS = translation by P)
+        mc = run_mc('MC_Altroot_q', 'MC_Altroot_q')
+        if not mc['ok']:
+            raise ToolError('model checking of MC_Altroot_q failed:\n%s' % mc.get('tail', ''))
+        mcs['MC_Altroot_q'] = mc
     if g in ('ovl', 'ovl_cycles'):
         # Level B: the overlay algorithm refines Level A for every initial content of two layers
-        mc = run_mc('MC_Overlay_q', 'MC_Overlay_q', workers=16)
-        if not mc['ok']:
-            raise ToolError('model checking of MC_Overlay_q failed:\n%s' % mc.get('tail', ''))
-        mcs['MC_Overlay_q'] = mc
+        for mname in ('MC_Overlay_q', 'MC_Overlay_3'):
+            mc = run_mc(mname, mname, workers=16)
+            if not mc['ok']:
+                raise ToolError('model checking of %s failed:\n%s' % (mname, mc.get('tail', '')))
+            mcs[mname] = mc
     for i, r in enumerate(runs):
         out = '%s/traces/r%02d' % (gdir, i)
         t1 = time.time()
